@@ -6,6 +6,7 @@ W=${W:-/tmp/wv_targets}
 OUT=${OUT:-/tmp/wv_targets_out}
 mkdir -p $OUT
 for d in "$@"; do
+  d=$(cd "$d" && pwd)
   id=$(basename $d)
   prop=$(python3 -c "import json;print(json.load(open('$d/meta.json'))['breaks_property'])")
   git -C /repo worktree remove --force $W >/dev/null 2>&1; rm -rf $W
